@@ -80,7 +80,12 @@ def main(tier: str) -> int:
                 # truncated (-T) renderings of the two paths coincide, the files do not
                 deep, tname = "app/api/v1/handlers/users", "views.py"
                 twin = "app.api.v2.handlers.users.views"
-                files[twin.replace(".", "/") + ".py"] = files.pop("helper.py")
+                helper_src = files.pop("helper.py")
+                if i % 4 == 3:
+                    # an import cycle through the target: the imported module imports the target back, so the target file is
+                    # analysed a second time and every diagnostic of it is raised twice, word for word
+                    helper_src = "import app.api.v1.handlers.users.views as target_back\n" + helper_src
+                files[twin.replace(".", "/") + ".py"] = helper_src
                 tgt = tgt.replace("from helper import", f"from {twin} import")
             files[f"{deep}/{tname}"] = tgt
             prog2 = {"files": files, "plan": prog["plan"]}
